@@ -1,6 +1,6 @@
 (* C11 - in play, keep-alives and teleports are always answered; unknown packets pass. *)
 From Coq Require Import ZArith List Bool.
-From PyCraft Require Import Model.Reactors Proofs.ReactorsProofs.
+From PyCraft Require Import Model.Reactors Proofs.ReactorsProofs Model.LoopErr Proofs.LoopErrProofs.
 Import ListNotations.
 Open Scope Z_scope.
 
@@ -58,3 +58,23 @@ Example C11_ex :
   map w_pkt (s_wire s) = [OKeepAlive 5; OTeleportConfirm 9; OKeepAlive 6] /\ s_queue s = [] /\ s_spawned s = true /\
   s_end s = Some ENormalExit /\ s_exits s = 1%nat.
 Proof. vm_compute. repeat split; reflexivity. Qed.
+
+(* "... a server disconnect packet closes the connection, runs the exit callback exactly once and reports no error" - also
+   when the answer to an earlier packet could no longer be written because the server had already closed: whatever I/O error
+   that write met (every IOError is held back, not only broken-pipe and connection-reset), a disconnect packet read in the same
+   turn of the networking loop cancels it and the loop ends without raising.  Without such a packet the write error is what
+   the turn ends with.  (Model/LoopErr.v: one turn of NetworkingThread._run with respect to errors.) *)
+Theorem C11_goodbye_cancels_write_error : forall held pre r post,
+  forallb quiet pre = true -> rd_disconnect r = true -> rd_raises r = None -> rd_ends_loop r = true ->
+  read_phase held (pre ++ r :: post) = TInterrupted.
+Proof. exact disconnect_cancels_write_error. Qed.
+Print Assumptions C11_goodbye_cancels_write_error.
+Theorem C11_write_error_reported_otherwise : forall e reads,
+  forallb quiet reads = true -> forallb (fun r => negb (rd_disconnect r)) reads = true -> read_phase (Some e) reads = TRaised e.
+Proof. exact write_error_reported. Qed.
+Print Assumptions C11_write_error_reported_otherwise.
+Example C11_turn_ex :
+  turn (Some {| wf_exn := 103; wf_is_ioerror := true |}) [{| rd_disconnect := false; rd_raises := None; rd_ends_loop := false |};
+                                                           {| rd_disconnect := true; rd_raises := None; rd_ends_loop := true |}] = TInterrupted /\
+  turn (Some {| wf_exn := 103; wf_is_ioerror := true |}) [{| rd_disconnect := false; rd_raises := None; rd_ends_loop := false |}] = TRaised 103.
+Proof. vm_compute. split; reflexivity. Qed.
